@@ -25,12 +25,18 @@
 (* Matching is UrlPattern!MatchesWX: a wildcard written as a path segment stands for path   *)
 (* segments only ("a.com/*" does not match "a.com.evil.net/x").                              *)
 (* Whether "a.com/x/*" matches "a.com/x" (wildcard facing no segment) is not fixed by the   *)
-(* statement: an outcome is accepted if it is right under either reading (minTail 0 or 1),  *)
-(* consistently for the whole outcome.                                                      *)
+(* statement, nor whether a parameter may stand for an empty segment: an outcome is         *)
+(* accepted if it is right under one combination of the readings, consistently for the      *)
+(* whole outcome.  Empty segments are segments: "a.com//y" is not "a.com/y".                *)
 (* Order independence is a relation between outcomes (EndpointPolicyTrace / MC_C13).        *)
 EXTENDS UrlPattern
 
-M(p, u, mt) == MatchesWX(p, u, mt)
+\* mt encodes the two points the statement leaves open: mt % 2 = how many segments a trailing wildcard needs at
+\* least (0: "a.com/x/*" matches "a.com/x"), mt >= 2 = a parameter may stand for an EMPTY segment ("a.com//y" for
+\* "a.com/{p}/y").  A URL is its segment sequence, empty segments included: "a.com//y" has two path segments and
+\* is not "a.com/y".
+ParamFacesEmpty(p, u) == \E i \in ParamPositions(p) : i <= NParts(u) /\ Parts(u)[i].v = ""
+M(p, u, mt) == MatchesWX(p, u, mt % 2) /\ (mt >= 2 \/ ~ParamFacesEmpty(p, u))
 
 DeclsFor(D, m, u, mt)   == {d \in D : d.m = m /\ M(d.p, u, mt)}
 PatsMatching(D, u, mt)  == {d.p : d \in {e \in D : M(e.p, u, mt)}}
@@ -63,7 +69,9 @@ AcceptW(D, m, u, out, mt) ==
     /\ \A s \in out.dsel : NormOK(D, u, mt, s)
     /\ LookupOK(D, u, mt, out.lk)
 
-Accept(D, m, u, out) == \E mt \in {0, 1} : AcceptW(D, m, u, out, mt)
+\* the empty-segment reading only matters for a URL that has one
+Modes(u) == IF \E i \in 1..NParts(u) : Parts(u)[i].v = "" THEN 0..3 ELSE 0..1
+Accept(D, m, u, out) == \E mt \in Modes(u) : AcceptW(D, m, u, out, mt)
 
 -------------------------------------------------------------------------------
 (* Known-finding class "best pattern shadowed" (recorded with bin/kf, not part of the     *)
@@ -107,7 +115,7 @@ AcceptShadowW(D, m, u, out, mt) ==
     /\ \A s \in out.dsel : NormOK(D, u, mt, s)
     /\ LookupOK(D, u, mt, out.lk)
 
-AcceptShadow(D, m, u, out) == \E mt \in {0, 1} : AcceptShadowW(D, m, u, out, mt)
+AcceptShadow(D, m, u, out) == \E mt \in Modes(u) : AcceptShadowW(D, m, u, out, mt)
 
 \* verdict used by the generators and the trace specification
 Verdict(D, m, u, out) == IF Accept(D, m, u, out) THEN "ok"
